@@ -12,6 +12,7 @@ import (
 	"go/token"
 	"go/types"
 	"sort"
+	"strconv"
 	"strings"
 	"unicode"
 )
@@ -331,7 +332,34 @@ func (ev *evaluator) evalExpr(e ast.Expr, st state, info *types.Info) []eres {
 		return ev.evalCall(e, st, info)
 	case *ast.FuncLit:
 		return []eres{{v: aval{k: avFunc, lit: e}, st: st}}
-	case *ast.CompositeLit, *ast.IndexExpr, *ast.SliceExpr, *ast.StarExpr, *ast.TypeAssertExpr, *ast.KeyValueExpr:
+	case *ast.SliceExpr:
+		// a constant string cut at constant bounds is a constant
+		if e.Max == nil {
+			xs := ev.evalExpr(e.X, st, info)
+			if len(xs) == 1 && xs[0].v.k == avConst && xs[0].v.c.Kind() == constant.String {
+				str := constant.StringVal(xs[0].v.c)
+				lo, hi, ok := 0, len(str), true
+				bound := func(b ast.Expr, into *int) {
+					if b == nil {
+						return
+					}
+					bs := ev.evalExpr(b, xs[0].st, info)
+					if len(bs) == 1 && bs[0].v.k == avConst && bs[0].v.c.Kind() == constant.Int {
+						v, _ := constant.Int64Val(bs[0].v.c)
+						*into = int(v)
+					} else {
+						ok = false
+					}
+				}
+				bound(e.Low, &lo)
+				bound(e.High, &hi)
+				if ok && 0 <= lo && lo <= hi && hi <= len(str) {
+					return []eres{{v: constVal(constant.MakeString(str[lo:hi])), st: xs[0].st}}
+				}
+			}
+		}
+		return ev.evalOperandsUnknown(e, st, info)
+	case *ast.CompositeLit, *ast.IndexExpr, *ast.StarExpr, *ast.TypeAssertExpr, *ast.KeyValueExpr:
 		// value unknown, but nested calls may diverge: evaluate operands in order.
 		return ev.evalOperandsUnknown(e, st, info)
 	}
@@ -429,8 +457,8 @@ func binop(op token.Token, a, b aval) aval {
 		switch x.k {
 		case avNil:
 			return boolVal(op == token.EQL)
-		case avFunc:
-			return boolVal(op == token.NEQ)
+		case avFunc, avStruct:
+			return boolVal(op == token.NEQ) // nil is represented explicitly: a function or record value is not nil
 		}
 		return unknown
 	}
@@ -651,6 +679,39 @@ func stdCall(full string, args []aval) aval {
 	case "unicode.IsUpper":
 		if x, ok := r(0); ok {
 			return boolVal(unicode.IsUpper(x))
+		}
+	case "strings.HasPrefix", "strings.HasSuffix", "strings.Contains":
+		if len(args) == 2 && args[0].k == avConst && args[1].k == avConst && args[0].c.Kind() == constant.String && args[1].c.Kind() == constant.String {
+			a, b := constant.StringVal(args[0].c), constant.StringVal(args[1].c)
+			switch full {
+			case "strings.HasPrefix":
+				return boolVal(strings.HasPrefix(a, b))
+			case "strings.HasSuffix":
+				return boolVal(strings.HasSuffix(a, b))
+			}
+			return boolVal(strings.Contains(a, b))
+		}
+	case "strconv.ParseInt":
+		// a pure function of constant arguments: (value, nil) or (0, a non-nil error)
+		if len(args) == 3 && args[0].k == avConst && args[1].k == avConst && args[2].k == avConst && args[0].c.Kind() == constant.String {
+			base, _ := constant.Int64Val(args[1].c)
+			bits, _ := constant.Int64Val(args[2].c)
+			v, err := strconv.ParseInt(constant.StringVal(args[0].c), int(base), int(bits))
+			res := aval{k: avStruct, fields: map[string]aval{"#0": constVal(constant.MakeInt64(v)), "#1": {k: avNil}}}
+			if err != nil {
+				res.fields["#1"] = aval{k: avStruct, fields: map[string]aval{"error": constVal(constant.MakeString(err.Error()))}}
+			}
+			return res
+		}
+	case "strconv.ParseFloat":
+		if len(args) == 2 && args[0].k == avConst && args[1].k == avConst && args[0].c.Kind() == constant.String {
+			bits, _ := constant.Int64Val(args[1].c)
+			v, err := strconv.ParseFloat(constant.StringVal(args[0].c), int(bits))
+			res := aval{k: avStruct, fields: map[string]aval{"#0": constVal(constant.MakeFloat64(v)), "#1": {k: avNil}}}
+			if err != nil {
+				res.fields["#1"] = aval{k: avStruct, fields: map[string]aval{"error": constVal(constant.MakeString(err.Error()))}}
+			}
+			return res
 		}
 	case "math.IsNaN":
 		if len(args) == 1 && args[0].k == avConst && (args[0].c.Kind() == constant.Float || args[0].c.Kind() == constant.Int) {
